@@ -560,3 +560,21 @@ Proof.
     repeat (destruct I as [I|I]; [subst t; simpl in *; try discriminate; split; intros; discriminate|]). contradiction.
   - intros n; simpl; lia.
 Qed.
+
+(* C04 over all six non-edit calls (hence over auto_claim_comments, which is a sequence of them) *)
+Theorem cstep_same_vis : forall st o, NoDup (ids (fst st)) -> same_vis (fst (cstep st o)) (fst st).
+Proof.
+  intros [d tb] o ND. destruct o as [o|r ph items mf ml flt|r items flt].
+  - exact (sstep_same_vis (d, tb) o ND).
+  - simpl. destruct (claimer_claim d ph items mf ml flt) as [res d'] eqn:E.
+    apply claimer_claim_same_vis in E. destruct res as [[x y]|e]; exact E.
+  - simpl. destruct (unclaim_inter d items flt) as [res d'] eqn:E.
+    apply unclaim_inter_same_vis in E. destruct res as [[x y]|e]; exact E.
+Qed.
+
+Theorem chistory_same_vis : forall ops st, NoDup (ids (fst st)) -> same_vis (fst (fold_left cstep ops st)) (fst st).
+Proof.
+  induction ops as [|o ops IH]; simpl; intros st ND; [apply same_vis_refl|].
+  pose proof (cstep_same_vis st o ND) as V.
+  eapply same_vis_trans; [apply IH; eapply same_vis_nodup; eauto | exact V].
+Qed.
